@@ -286,7 +286,7 @@ type archiveableDataBlock struct {
 	dataBlock
 	earliestTime     time.Time
 	requestedSamples int
-	complete         chan struct{}
+	complete         chan dataBlock // receives the filled block, once, when enough samples are stored
 	active           bool
 }
 
@@ -401,8 +401,11 @@ func (ds *AnySource) archiveNewDataBlock(block *dataBlock) {
 
 	requestFilled := ab.nSamp >= ab.requestedSamples
 	if requestFilled {
-		close(ab.complete)
+		// Hand the filled block over to the goroutine that writes it and keep no reference
+		// to it: the next archive request starts from an empty block.
 		ab.active = false
+		ab.complete <- ab.dataBlock
+		ab.dataBlock = dataBlock{}
 	}
 }
 
@@ -1082,12 +1085,10 @@ func (ds *AnySource) StopTriggerCoupling() error {
 	return ds.broker.StopTriggerCoupling()
 }
 
-func (ds *AnySource) writeNPZData(file *os.File) error {
+func writeNPZData(file *os.File, channelNames []string, ab *dataBlock) error {
 	wz := npz.NewWriter(file)
 	defer wz.Close()
 
-	ab := ds.archiveBlock
-	channelNames := ds.ChannelNames()
 	firstFrame := make([]int64, len(ab.segments))
 	for i, stream := range ab.segments {
 		data := stream.rawData
@@ -1119,14 +1120,18 @@ func (ds *AnySource) ArchiveDataBlock(N int, file *os.File, finalName string) er
 	ds.archiveBlock.earliestTime = time.Now()
 	ds.archiveBlock.requestedSamples = N
 	ds.archiveBlock.segments = nil
-	ds.archiveBlock.complete = make(chan struct{})
+	complete := make(chan dataBlock, 1)
+	ds.archiveBlock.complete = complete
 	ds.archiveBlock.active = true
+	channelNames := ds.ChannelNames()
 
-	// Launch this goroutine, which will execute when the ds.archiveBlock.complete channel is closed
+	// Launch this goroutine, which will execute when the filled block arrives on the complete channel.
+	// It works only on that block and on local values, never on ds: the source keeps running
+	// (and can accept the next archive request) while the file is written.
 	go func() {
 		// When the archiveBlock is filled, write to npz file.
-		<-ds.archiveBlock.complete
-		if err := ds.writeNPZData(file); err != nil {
+		filled := <-complete
+		if err := writeNPZData(file, channelNames, &filled); err != nil {
 			file.Close()
 		}
 
